@@ -136,6 +136,7 @@ def run(ctx):
             if gls_r and i % 4 == 1:
                 constr["fix_var"] = {gls_r[-1]: 0.8}
             kinds.add("fixed")
+            phase_fixed = phase_bounded = None
             del probe
             with quiet():
                 cfg = cards.load(card)
@@ -145,6 +146,8 @@ def run(ctx):
             for k in neg_heads:
                 if k in truth:
                     truth[k] = -abs(truth[k]) - 0.3
+            if phase_bounded is not None:
+                truth[phase_bounded] = 4.6
             amp.set_params(truth)
             truth_all = {k: float(v) for k, v in amp.get_params().items()}
             if active_bound is not None and active_bound[0] in cfg.bound_dic:
@@ -241,6 +244,9 @@ def run(ctx):
             # (3) not above the start
             ctx.check("min_nll <= NLL(start)", r.min_nll <= nll_start + 1e-7 * (1 + abs(nll_start)), lambda: wit(min_nll=r.min_nll, nll_start=nll_start),
                       mechanism="min_nll above start: method=%s" % method)
+            if phase_fixed is not None and __import__("os").environ.get("VH_DEBUG"):
+                print("DEBUG phase_fixed", phase_fixed, "before", before.get(phase_fixed), "live", live.get(phase_fixed), "r before", before.get(phase_fixed[:-1] + "r"), "r live", live.get(phase_fixed[:-1] + "r"),
+                      "in fixed_names", phase_fixed in fixed_names, file=__import__("sys").stderr)
             # (4) fixed unchanged
             moved = {k: (before[k], live[k]) for k in fixed_names if abs(before[k] - live[k]) > 1e-12 * (1 + abs(before[k]))}
             ctx.check("fixed parameters unchanged", not moved, lambda: wit(moved=dict(list(moved.items())[:4])), mechanism="fixed parameter moved: method=%s" % method)
@@ -298,3 +304,67 @@ def run(ctx):
         if i < ctx.nshards:
             ctx.sample({"method": method, "constraints": sorted(kinds), "history": history, "card": cards.short(card)}, limit=3)
         gc.collect()
+    phase_constraints(ctx)
+
+
+def phase_constraints(ctx):
+    """Constraints on the PHASE of a polar coupling through a fit: (a) the phase is fixed and the radius is negative at the minimum
+    (data generated with the opposite phase); (b) the phase is bounded to a range outside [-pi, pi).  Methods whose branch of fit_scipy
+    standardises the complex couplings at the end."""
+    n = ctx.pick(6, 48)
+    for i, rng in ctx.cases("phase_constraints", n, budget_s=ctx.pick(400, 1800)):
+        method = ["BFGS", "L-BFGS-B", "CG"][i % 3]
+        scenario = ["fixed phase, radius negative at the minimum", "bounded phase outside [-pi, pi)"][(i // 3) % 2]
+        tag = "_c08Ps%di%d" % (ctx.seed, i)
+        try:
+            card = cards.CardGen(rng, tag, nbody=3, n_chains=(3, 3), final_j2=(0, 0), res_j2_int=(0, 2), top_j2=(0,), res_per_slot=(1, 1), models=("default",), decay_opts_prob=0.0).make()
+            with quiet():
+                probe = cards.load(card)
+                free0 = list(probe.get_amplitude().vm.trainable_vars)
+            tot_r = [k for k in free0 if k.endswith("total_0r") and k[:-1] + "i" in free0]
+            if not tot_r:
+                continue
+            rname, pname = tot_r[0], tot_r[0][:-1] + "i"
+            constr = card["config"].setdefault("constrains", {})
+            if scenario.startswith("fixed"):
+                constr["fix_var"] = {pname: 0.5}
+            else:
+                constr["var_range"] = {pname: [3.5, 6.3]}
+            with quiet():
+                cfg = cards.load(card)
+                amp = cfg.get_amplitude()
+            truth = cards.random_params(amp, (ctx.seed, 800 + i))
+            if scenario.startswith("fixed"):
+                truth[rname], truth[pname] = -1.4, 0.5
+            else:
+                truth[rname], truth[pname] = 1.2, 4.6
+            amp.set_params(truth)
+            ps = cards.events(card, 5000, rng, classes=False)
+            with quiet():
+                big = cfg.data.cal_angle([np.ascontiguousarray(p) for p in ps])
+                dens = np.asarray(amp(big))
+            keep = np.where(rng.random(5000) * dens.max() < dens)[0][:300]
+            if len(keep) < 100:
+                ctx.count("too_few_toy_events")
+                continue
+            with quiet():
+                data = cfg.data.cal_angle([np.ascontiguousarray(p[keep]) for p in ps])
+                phsp = cfg.data.cal_angle([np.ascontiguousarray(p) for p in cards.events(card, 1200, rng, classes=False)])
+            start = dict(truth)
+            start[rname] = truth[rname] * 0.8
+            amp.set_params(start)
+            before = {k: float(v) for k, v in amp.get_params().items()}
+            with quiet():
+                r = cfg.fit(data=[data], phsp=[phsp], bg=[None], method=method, batch=65000)
+            live = {k: float(v) for k, v in amp.get_params().items()}
+        except Exception as e:
+            ctx.violation("fit returns a result", ctx.exc_witness(e, method=method, scenario=scenario), mechanism="fit raises: method=%s (%s)" % (method, scenario))
+            continue
+        wit = lambda: {"method": method, "scenario": scenario, "coupling": rname[:-1], "radius_before": before[rname], "phase_before": before[pname], "radius_after": live[rname],
+                       "phase_after": live[pname], "config": card["config"]}
+        if scenario.startswith("fixed"):
+            ctx.check("fixed parameters unchanged", abs(live[pname] - before[pname]) <= 1e-12, wit, mechanism="fixed parameter moved: method=%s [fixed phase of a polar coupling whose radius is negative at the minimum]" % method)
+        else:
+            ctx.check("bounded parameters inside bounds", 3.5 - 1e-9 <= live[pname] <= 6.3 + 1e-9, wit, mechanism="bounded parameter outside: method=%s [phase of a polar coupling bounded outside [-pi, pi)]" % method)
+        ctx.case(("phase", method, scenario, i), nontrivial=True)
+        ctx.covered("constraint", scenario)
